@@ -24,6 +24,7 @@ import numpy as np
 
 LOG = []  # list of (kind, sorted-kwargs-tuple)
 POISON = set()  # frozenset(kwargs.items()) for which the function raises
+POISON_EXC = [None]  # exception class a poisoned setting raises (None: FnError)
 HOOK = None  # optional callable(kind, kwargs) run before returning (simexec)
 
 
@@ -34,6 +35,7 @@ class FnError(RuntimeError):
 def reset():
     del LOG[:]
     POISON.clear()
+    POISON_EXC[0] = None
 
 
 def key(kwargs):
@@ -75,7 +77,16 @@ def scalar(kwargs):
     return number(kwargs) / 8.0
 
 
+NEAR = 1.0 + 2.0 ** -41  # relative 4.5e-13: a different float, closer than any sane tolerance
+
+
 def value(kind, kwargs):
+    ver = kwargs.get("ver")
+    if isinstance(ver, int) and not isinstance(ver, bool) and ver >= 10 and kind in ("scalar", "tuple2"):
+        # versions 10, 11, ...: what version 0, 1, ... returns, off by a relative 2**-41 - a
+        # genuinely different value that a tolerance-based comparison would call equal
+        base = value(kind, dict(kwargs, ver=ver - 10))
+        return base * NEAR if kind == "scalar" else tuple(x * NEAR for x in base)
     s = scalar(kwargs)
     if kind == "scalar":
         return s
@@ -87,6 +98,8 @@ def value(kind, kwargs):
         return (s, -s - 1.0, s * 0.5 + 3.0)
     if kind in ("array", "array-constdim"):  # one output that is a length-3 list
         return [s, s + 0.5, -s]
+    if kind == "holes":  # a function that legitimately returns nan for some settings
+        return float("nan") if number(kwargs) % 4 == 0 else s
     if kind == "npscalar":  # a numpy scalar, as numerical code returns
         return np.float64(s)
     if kind == "complex":
@@ -153,7 +166,7 @@ def call(kind, kwargs):
                 os.killpg(os.getpgid(0), signal.SIGKILL)
     LOG.append((kind, k))
     if POISON and k in POISON:
-        raise FnError("poisoned setting %r" % (k,))
+        raise (POISON_EXC[0] or FnError)("poisoned setting %r" % (k,))
     if HOOK is not None:
         HOOK(kind, kwargs)
     return value(kind, kwargs)
